@@ -70,6 +70,8 @@ def gen_cases(prop, seed):
         # judged by the history engine, reported under this property
         from .hgen import gen_history
         return [gen_history(seed, prop)]
+    if prop in ('C07', 'C08', 'C11') and seed % 12 == 5:
+        return [gen_rerun_case(rng)]
     if prop in ('C02', 'C12', 'C01', 'C03') and seed % 10 == 1:
         top, knobs = gen.gen_motif(seed)
         return [make_case(top, knobs, {"motif": True})]
@@ -112,6 +114,91 @@ def gen_cases(prop, seed):
         else:
             cases += sweep_enclosing_end(top, knobs, rng)
     return cases
+
+
+RERUN_PROFILE = P(forbid=('coro', 'inspect'), windows=0.7, timeouts=0.6,
+                  nesting=0.6, never=0.4, forever=0.4, max_depth=2,
+                  max_jobs=8)
+
+
+def gen_rerun_case(rng):
+    """
+    The same scheduler objects run twice, jobs_window / timeout re-assigned in
+    between. The library re-runs trees without requirements only (with
+    requirements a second run dies on the clean tree), so edges are dropped;
+    jobs are AbstractJob subclasses (a coroutine object cannot be awaited
+    twice).
+    """
+    top, feat = gen.gen_tree(rng, RERUN_PROFILE)
+    for node, _, _ in S.walk(top):
+        if S.is_sched(node):
+            node['edges'] = []
+            node['build'] = 'ctor'
+        else:
+            node['cls'] = 'abstract'
+    if not S.admissible(top):
+        gen._repair(top, rng)
+    attrs2 = {}
+    for node, _, _ in S.walk(top):
+        if S.is_sched(node):
+            win, tmo = node['window'], node['timeout']
+            if rng.random() < 0.6:
+                win = rng.choice((None, 1, 2, 3, 0))
+            if rng.random() < 0.5:
+                tmo = rng.choice((None, 0.5, 1.0, 1.5, 2.125, 3.0))
+            attrs2[node['id']] = {"window": win, "timeout": tmo}
+    knobs = gen.gen_knobs(rng, feat)
+    knobs['noise'] = 0
+    return {"spec": top, "knobs": knobs, "choices": None,
+            "aux": {"rerun": True}, "attrs2": attrs2}
+
+
+def second_spec(case):
+    spec2 = S.clone(case['spec'])
+    for node, _, _ in S.walk(spec2):
+        if S.is_sched(node) and node['id'] in case['attrs2']:
+            node['window'] = case['attrs2'][node['id']]['window']
+            node['timeout'] = case['attrs2'][node['id']]['timeout']
+    return spec2
+
+
+def evaluate_rerun(prop, case):
+    res = Result()
+    res.stats = stats = {}
+    res.extra_runs = 1
+    spec2 = second_spec(case)
+    if not S.admissible(spec2):
+        res.violations, res.shape, res.nontrivial = [], 0, False
+        res.run, res.vtime = None, 0.0
+        return res
+    run = run_spec(case['spec'], case['knobs'], case.get('choices'),
+                   attrs2=case['attrs2'])
+    if run.harness_error:
+        raise RuntimeError(run.harness_error)
+    run.spec = spec2
+    res.run = run
+    hist = History(run)
+    viols = []
+    if run.outcome not in ('ret', 'exc'):
+        viols.append(oracles.Violation(
+            prop, 'second-run-does-not-terminate', 'rerun',
+            "second run of the same scheduler: {} ({})".format(
+                run.outcome, run.value)))
+    elif prop == 'C07':
+        viols = oracles.c07(hist, stats)
+    elif prop == 'C08':
+        viols = oracles.c08(hist, stats)
+    elif prop == 'C11':
+        viols = oracles.c11(hist, stats)
+    for v in viols:
+        v.site = 'rerun-' + v.site
+    stats['second_runs_judged'] = 1
+    _loop_stats(run, stats)
+    res.violations = viols
+    res.shape = shape(run)
+    res.nontrivial = True
+    res.vtime = run.loop_stats['vtime']
+    return res
 
 
 def _make_flattenable(top):
@@ -348,6 +435,8 @@ def evaluate_case(prop, case):
     if 'ops' in case:
         from . import hcases
         return hcases.evaluate_case(prop, case)
+    if 'attrs2' in case:
+        return evaluate_rerun(prop, case)
     res = Result()
     stats = {}
     res.stats = stats
